@@ -160,10 +160,20 @@ func (pc *ProtoCtx) Build(st map[string]interface{}) ([]byte, M, error) {
 			lp["hascookie"] = false
 		} else if cls == "long" && ck != "none" {
 			u := tsgu.UTF16LE(cookie)
-			pkt = tsgu.TunnelCreateRaw(0x2, 0x1, uint16(len(u)+2+2*rng.Intn(100)), u)
-			// the declared cookie is longer than what is carried: not the minted string
+			// the declared cookie is longer than what is carried: the gateway sees the string followed by k NUL units.
+			// One NUL is the terminator of a null-terminated wire string - the same cookie in another encoding
+			// (either verdict is allowed); two or more make it a different string
+			k := 2 + rng.Intn(99)
+			if rng.Intn(4) == 0 {
+				k = 1
+			}
+			pkt = tsgu.TunnelCreateRaw(0x2, 0x1, uint16(len(u)+2*k), u)
 			if ck == "good" {
-				lp["tok"].(M)["mut"] = "trunc"
+				if k == 1 {
+					lp["tok"].(M)["mut"] = "neutral"
+				} else {
+					lp["tok"].(M)["mut"] = "trunc"
+				}
 			}
 		}
 	case "auth":
